@@ -1015,3 +1015,59 @@ def rf84(run):
         raise F.AnalysisBroken('machinize_call: insertion of the result moves not found')
     # the pattern the order relies on: LDMOV from st1 swaps first
     return n
+
+
+# ---------------------------------------------------------------------------------------------
+# RF111: the interpreter shim fetches a by-value block from registers exactly when the callers put it there
+# ---------------------------------------------------------------------------------------------
+
+def rf111(run):
+    from lib import printexec as PE
+    rule = 'RF111'
+    run.rule(rule, 'mir-x86_64.c, va_block_arg_builtin (used by the interpreter shim to fetch by-value block parameters): executed '
+                   'abstractly for every passing class (1 integer, 2 SSE, 3 integer+SSE, 4 SSE+integer), block size 8 or 16 and every '
+                   'state of the va_list (gp_offset 0…48, fp_offset 48…176).  The block is taken from the register save area exactly when '
+                   'the psABI (and every caller: FFI trampoline, generated call sequence, C compilers) passes it in registers — all its '
+                   'eightbytes fit into the free registers of their class — and the offsets advance by 8 / 16 per eightbyte taken')
+    tu = run.tu('mir')
+    f = tu.func('va_block_arg_builtin')
+    run.functions_analysed.add(('mir', f.name))
+    n = 0
+    bad = None
+    for ncase in (1, 2, 3, 4):
+        for s in (8, 16) if ncase in (1, 2) else (16,):
+            for gp in range(0, 49, 8):
+                for fp in range(48, 177, 16):
+                    env = {'ncase': ncase, 's': s, 'va->gp_offset': gp, 'va->fp_offset': fp, 'res': 0, 'va->overflow_arg_area': 1000}
+                    ex = PE.PrintExec(tu, {}, {'memcpy': lambda a, e, x: 1}, {})
+                    try:
+                        r = ex.run(f.body, env)
+                    except F.AnalysisBroken as e_:
+                        raise F.AnalysisBroken('va_block_arg_builtin not executable for case %d: %s' % (ncase, e_))
+                    in_regs = r == 'return'
+                    words = s // 8
+                    if ncase == 1:
+                        want = gp + 8 * words <= 48
+                        dgp, dfp = 8 * words, 0
+                    elif ncase == 2:
+                        want = fp + 16 * words <= 176
+                        dgp, dfp = 0, 16 * words
+                    else:
+                        want = gp + 8 <= 48 and fp + 16 <= 176
+                        dgp, dfp = 8, 16
+                    ok = in_regs == want
+                    if ok and in_regs:
+                        ok = env.get('va->gp_offset') == gp + dgp and env.get('va->fp_offset') == fp + dfp
+                    n += 1
+                    run.ob(rule, (ncase, s, gp, fp), ok, {'class': ncase, 'size': s, 'gp_offset': gp, 'fp_offset': fp, 'taken from registers': in_regs,
+                                                         'psABI': want} if n % 40 == 1 or not ok else None)
+                    if not ok and bad is None:
+                        bad = (ncase, s, gp, fp, in_regs, want, env.get('va->gp_offset'), env.get('va->fp_offset'))
+    if bad is not None:
+        ncase, s, gp, fp, in_regs, want, g2, f2 = bad
+        run.violation(rule, f, 'block class %d, size %d at gp_offset %d / fp_offset %d' % (ncase, s, gp, fp),
+                      'a by-value block of passing class %d and size %d with gp_offset=%d, fp_offset=%d is taken from %s (offsets afterwards %s / %s), '
+                      'while every caller passes it %s: a function run by the interpreter reads other bytes than the ones the same function '
+                      'compiled by the generator reads' % (ncase, s, gp, fp, 'the register save area' if in_regs else 'the overflow area', g2, f2,
+                                                           'in registers' if want else 'wholly on the stack'), line=f.line)
+    return n
